@@ -237,6 +237,9 @@ func (fr *Frame) run(st0 *State) {
 		fr.blockIn[b] = in
 		st := in
 		alive := true
+		if fr.top {
+			vc.curBlock = b
+		}
 		for _, instr := range b.Instrs {
 			if _, ok := instr.(*ssa.Phi); ok {
 				continue
@@ -948,6 +951,10 @@ func (fr *Frame) step(st *State, instr ssa.Instruction) bool {
 		var vs []Val
 		for _, r := range x.Results {
 			vs = append(vs, fr.val(r))
+		}
+		if fr.top {
+			// `assert-at return` clauses see the values returned on this path
+			fr.assertAt(st, "return", vs, x.Pos())
 		}
 		fr.rets = append(fr.rets, retRec{st: st, vals: vs})
 		return false
